@@ -1,4 +1,5 @@
 import Frp.Model.VisitorLock
+import Frp.Model.CtlMgr
 import Frp.Model.XtcpVisitor
 import Frp.Props.C01
 /-
@@ -38,6 +39,17 @@ import Frp.Props.C01
   §8 the wrapper stacks of a tunnel stream (visitor's handleConn ↔ proxy's HandleTCPWorkConnection with the
      SECRET key): mirror iff equal declarations, byte transparency both ways from C01's stack lemmas.
   §9 the fallback visitor's request against NewConn; the predicate the `xtcp` driver engine evaluates.
+
+  §10 whose user a run id stands for (server/control.go ControlManager.Add / Del / GetByID, service.go RegisterControl /
+      RegisterVisitorConn; Frp/Model/CtlMgr.lean): over ALL histories of Add / Del calls — logins with fresh run ids,
+      re-logins under a run id that is still registered (replacement), Dels by the owner and by controls that were
+      replaced — GetByID designates exactly the control that CURRENTLY owns the run id (`cm_designates`), and the user
+      RegisterVisitorConn checks against allowUsers is that control's login user (`visitor_user_is_current_owner`,
+      `relogin_takes_over`, `stale_del_noop`, `owner_del_forgets`); `Visitor.State.ctls` is the projection of that table
+      for every history of service-level ops (`ctls_track_manager`, `visitorConn_user_is_designated`).
+  §11 "leaves no session state behind" for NAT-hole requests: a refused request — and any flood of refused requests —
+      leaves the sessions map exactly as it was (`nat_refused_leaves_nothing`, `flood_refused_leaves_nothing`); the
+      predicate the driver evaluates on the implementation's own session-table size (`leavesNothingB`).
 
   All theorems are for an arbitrary key derivation `H` (no property of md5 is used).
 -/
@@ -645,7 +657,7 @@ theorem qinv_step (fixed : Bool) (H : Str → Str) (s : State) (op : Op) (h : QI
     unfold doNatListen
     split <;> exact ⟨hl, hn⟩
   cases op with
-  | login rid user => exact ⟨hl, hn⟩
+  | login rid user => exact ⟨fun p hp => hl p (List.mem_filter.mp hp).1, hn⟩
   | logout rid => exact ⟨fun p hp => hl p (List.mem_filter.mp hp).1, hn⟩
   | listen name sk allow => exact hnew _ _ _ _
   | natListen name sk allow => exact hnat _ _ _ _
@@ -2724,6 +2736,430 @@ example : ((xrun exEnv exCfg (xinit exCfg) [.arrive 1 true, .tick 1 true, .advan
           [(1, .fallback, 300)] := by decide
 /-- before the timeout `ctxDone` is not enabled -/
 example : (xrun exEnv exCfg (xinit exCfg) [.arrive 1 true, .advance 299, .ctxDone 1 true]).hands = [] := by decide
+
+/-! ## §10 whose user: run ids over every history of logins, re-logins (replacement) and logouts
+
+  server/control.go ControlManager + service.go RegisterControl / RegisterVisitorConn (Frp/Model/CtlMgr.lean).
+  SPEC: the control that CURRENTLY owns a run id is the one of the latest Add under that run id, unless that very
+  control has been deleted since (a Del by any other control — one that was replaced — does not count). -/
+
+open CtlMgr (Ctl Tbl Call add del getByID visitorUser after users cmStep cmRun)
+
+/-- `c` owns `rid` after the history `h` (newest first): it was added under `rid`, no later Add under `rid`, and no
+    later Del of this very control -/
+def Owns (h : List Call) (rid : Str) (c : Ctl) : Prop :=
+  ∃ newer older, h = newer ++ Call.add rid c :: older ∧
+    ∀ e ∈ newer, (∀ c', e ≠ Call.add rid c') ∧ e ≠ Call.del rid c.id
+
+theorem del_get (t : Tbl) (rid rid' : Str) (id : Nat) :
+    getByID (del t rid id) rid' =
+      match getByID t rid' with
+      | some c => if rid = rid' ∧ c.id = id then none else some c
+      | none => none := by
+  unfold del getByID
+  by_cases e : rid = rid'
+  · subst e
+    cases hg : aget t rid with
+    | none => simp [hg]
+    | some c =>
+      by_cases hid : c.id = id
+      · simp [hid, aget_adel]
+      · simp [hid, hg]
+  · cases hg : aget t rid with
+    | none => simp only [e, false_and, if_false]; split <;> simp_all
+    | some c =>
+      by_cases hid : c.id = id
+      · simp only [hid, if_true, aget_adel, e, if_false, false_and]; split <;> simp_all
+      · simp only [hid, if_false, e, false_and]; split <;> simp_all
+
+theorem add_get (t : Tbl) (rid rid' : Str) (c : Ctl) :
+    getByID (add t rid c).1 rid' = if rid = rid' then some c else getByID t rid' := by
+  simp only [add, getByID, aget_aput]
+
+/-- ControlManager, every history of Add / Del calls in any order (re-logins under a live run id, Dels by replaced
+    controls, repeated Dels …): GetByID designates exactly the control that currently owns the run id -/
+theorem cm_designates (h : List Call) (rid : Str) (c : Ctl) :
+    getByID (after h) rid = some c ↔ Owns h rid c := by
+  induction h generalizing c with
+  | nil =>
+    simp only [after, getByID, aget]
+    constructor
+    · intro h; cases h
+    · rintro ⟨newer, older, he, _⟩
+      cases newer <;> cases he
+  | cons e h ih =>
+    cases e with
+    | add rid' c' =>
+      simp only [after, CtlMgr.apply, add_get]
+      by_cases er : rid' = rid
+      · subst er
+        simp only [if_true, Option.some.injEq]
+        constructor
+        · intro hc; subst hc
+          exact ⟨[], h, rfl, fun e he => by cases he⟩
+        · rintro ⟨newer, older, he, hn⟩
+          cases newer with
+          | nil => simp only [List.nil_append, List.cons.injEq, Call.add.injEq, true_and] at he; exact he.1
+          | cons e0 n =>
+            simp only [List.cons_append, List.cons.injEq] at he
+            exact absurd he.1.symm ((hn e0 List.mem_cons_self).1 c')
+      · simp only [er, if_false]
+        rw [ih]
+        constructor
+        · rintro ⟨newer, older, he, hn⟩
+          refine ⟨Call.add rid' c' :: newer, older, by rw [he]; rfl, ?_⟩
+          intro e hem
+          rcases List.mem_cons.mp hem with hem | hem
+          · subst hem
+            exact ⟨fun c'' hx => er (by cases hx; rfl), fun hx => by cases hx⟩
+          · exact hn e hem
+        · rintro ⟨newer, older, he, hn⟩
+          cases newer with
+          | nil =>
+            simp only [List.nil_append, List.cons.injEq, Call.add.injEq] at he
+            exact absurd he.1.1 er
+          | cons e0 n =>
+            simp only [List.cons_append, List.cons.injEq] at he
+            exact ⟨n, older, he.2, fun e hem => hn e (List.mem_cons_of_mem _ hem)⟩
+    | del rid' id =>
+      simp only [after, CtlMgr.apply, del_get]
+      constructor
+      · intro hg
+        cases hc : getByID (after h) rid with
+        | none => rw [hc] at hg; cases hg
+        | some c0 =>
+          rw [hc] at hg
+          simp only at hg
+          by_cases hx : rid' = rid ∧ c0.id = id
+          · rw [if_pos hx] at hg; cases hg
+          · rw [if_neg hx] at hg
+            cases hg
+            obtain ⟨newer, older, he, hn⟩ := (ih c).mp hc
+            refine ⟨Call.del rid' id :: newer, older, by rw [he]; rfl, ?_⟩
+            intro e hem
+            rcases List.mem_cons.mp hem with hem | hem
+            · subst hem
+              exact ⟨fun c'' hx' => (by cases hx'), fun hx' => hx (by cases hx'; exact ⟨rfl, rfl⟩)⟩
+            · exact hn e hem
+      · rintro ⟨newer, older, he, hn⟩
+        cases newer with
+        | nil => cases he
+        | cons e0 n =>
+          simp only [List.cons_append, List.cons.injEq] at he
+          have hown : Owns h rid c := ⟨n, older, he.2, fun e hem => hn e (List.mem_cons_of_mem _ hem)⟩
+          rw [(ih c).mpr hown]
+          simp only
+          have hne := (hn e0 List.mem_cons_self).2
+          rw [← he.1] at hne
+          rw [if_neg]
+          rintro ⟨h1, h2⟩
+          exact hne (by rw [h1, h2])
+
+/-- at most one control owns a run id -/
+theorem owns_unique (h : List Call) (rid : Str) (c c' : Ctl) (h1 : Owns h rid c) (h2 : Owns h rid c') : c = c' := by
+  have a := (cm_designates h rid c).mpr h1
+  have b := (cm_designates h rid c').mpr h2
+  rw [a] at b
+  exact Option.some.inj b
+
+/-- RegisterVisitorConn, every history: the user that will be checked against allowUsers is "" for the empty run id
+    and otherwise the login user of the control that currently owns the run id; an error iff nobody owns it -/
+theorem visitor_user_is_current_owner (h : List Call) (rid user : Str) :
+    visitorUser (after h) rid = .ok user ↔
+      (rid = [] ∧ user = []) ∨ (rid ≠ [] ∧ ∃ c, Owns h rid c ∧ c.user = user) := by
+  unfold visitorUser
+  by_cases hr : rid = []
+  · simp [hr]
+  · simp only [hr, if_false, false_and, false_or, ne_eq, not_false_eq_true, true_and]
+    cases hg : getByID (after h) rid with
+    | none =>
+      simp only [reduceCtorEq, false_iff, not_exists, not_and]
+      intro c hc
+      rw [(cm_designates h rid c).mpr hc] at hg
+      cases hg
+    | some c =>
+      simp only [Except.ok.injEq]
+      constructor
+      · intro hu; exact ⟨c, (cm_designates h rid c).mp hg, hu⟩
+      · rintro ⟨c', hc', hu⟩
+        rw [(cm_designates h rid c').mpr hc'] at hg
+        cases hg
+        exact hu
+
+theorem visitor_user_unknown (h : List Call) (rid : Str) (e : Err) :
+    visitorUser (after h) rid = .error e ↔ (e = .noRun ∧ rid ≠ [] ∧ ∀ c, ¬ Owns h rid c) := by
+  unfold visitorUser
+  by_cases hr : rid = []
+  · simp [hr]
+  · simp only [hr, if_false, ne_eq, not_false_eq_true, true_and]
+    cases hg : getByID (after h) rid with
+    | none =>
+      simp only [Except.error.injEq]
+      constructor
+      · intro he
+        refine ⟨he.symm, fun c hc => ?_⟩
+        rw [(cm_designates h rid c).mpr hc] at hg
+        cases hg
+      · intro he; exact he.1.symm
+    | some c =>
+      simp only [reduceCtorEq, false_iff, not_and]
+      intro _ hall
+      exact hall c ((cm_designates h rid c).mp hg)
+
+/-- a re-login takes the run id over at once, whatever happened before (also while the previous control is still
+    registered): from now on the run id stands for the NEW login's user -/
+theorem relogin_takes_over (h : List Call) (rid : Str) (c : Ctl) (hr : rid ≠ []) :
+    Owns (Call.add rid c :: h) rid c ∧ visitorUser (after (Call.add rid c :: h)) rid = .ok c.user := by
+  have ho : Owns (Call.add rid c :: h) rid c := ⟨[], h, rfl, fun e he => by cases he⟩
+  exact ⟨ho, (visitor_user_is_current_owner _ rid c.user).mpr (.inr ⟨hr, c, ho, rfl⟩)⟩
+
+/-- the Del of a control that does not own the run id (it was replaced, or already deleted) changes nothing -/
+theorem stale_del_noop (t : Tbl) (rid : Str) (id : Nat) (h : ∀ c, getByID t rid = some c → c.id ≠ id) :
+    del t rid id = t := by
+  unfold del
+  cases hg : aget t rid with
+  | none => rfl
+  | some c => simp only [h c hg, if_false]
+
+/-- the Del of the owner: the run id is unknown afterwards (until somebody logs in with it again) -/
+theorem owner_del_forgets (h : List Call) (rid : Str) (c : Ctl) (ho : Owns h rid c) (hr : rid ≠ []) :
+    visitorUser (after (Call.del rid c.id :: h)) rid = .error .noRun := by
+  refine (visitor_user_unknown _ rid .noRun).mpr ⟨rfl, hr, ?_⟩
+  rintro c' ⟨newer, older, he, hn⟩
+  cases newer with
+  | nil => cases he
+  | cons e0 n =>
+    simp only [List.cons_append, List.cons.injEq] at he
+    have hown : Owns h rid c' := ⟨n, older, he.2, fun e hem => hn e (List.mem_cons_of_mem _ hem)⟩
+    have := owns_unique h rid c c' ho hown
+    subst this
+    exact (hn e0 List.mem_cons_self).2 he.1.symm
+
+/-! ### `Visitor.State.ctls` is the manager's table seen through `loginMsg.User` -/
+
+theorem aget_users (t : Tbl) (rid : Str) : aget (users t) rid = (aget t rid).map (·.user) := by
+  induction t with
+  | nil => rfl
+  | cons p t ih =>
+    obtain ⟨k, v⟩ := p
+    simp only [users, List.map_cons, aget] at ih ⊢
+    split
+    · rfl
+    · exact ih
+
+theorem users_aput (t : Tbl) (rid : Str) (c : Ctl) : users (aput t rid c) = aput (users t) rid c.user := by
+  induction t with
+  | nil => rfl
+  | cons p t ih =>
+    obtain ⟨k, v⟩ := p
+    simp only [users, List.map_cons, aput] at ih ⊢
+    split
+    · rfl
+    · simp only [List.map_cons, ih]
+
+theorem users_adel (t : Tbl) (rid : Str) : users (adel t rid) = adel (users t) rid := by
+  induction t with
+  | nil => rfl
+  | cons p t ih =>
+    obtain ⟨k, v⟩ := p
+    simp only [users, List.map_cons, adel] at ih ⊢
+    split
+    · exact ih
+    · simp only [List.map_cons, ih]
+
+theorem adel_absent {α : Type} (l : List (Str × α)) (k : Str) (h : aget l k = none) : adel l k = l := by
+  induction l with
+  | nil => rfl
+  | cons p t ih =>
+    obtain ⟨k', v⟩ := p
+    simp only [aget] at h
+    simp only [adel]
+    split
+    · next e => simp [e] at h
+    · next e => simp only [e, if_false] at h; rw [ih h]
+
+/-- `resolveUser` on the projection is RegisterVisitorConn on the manager -/
+theorem resolveUser_users (t : Tbl) (rid : Str) : resolveUser (users t) rid = visitorUser t rid := by
+  unfold resolveUser visitorUser getByID
+  by_cases hr : rid = []
+  · simp [hr]
+  · simp only [hr, if_false, aget_users]
+    cases aget t rid <;> rfl
+
+/-- one service-level op: the model's `ctls` moves exactly as the projection of the manager's table under the
+    Add / Del calls behind the op -/
+theorem ctls_track_step (fixed : Bool) (H : Str → Str) (s : State) (t : Tbl) (n : Nat) (op : Op)
+    (h : s.ctls = users t) : (step fixed H s op).1.ctls = users (cmStep t n op) := by
+  cases op with
+  | login rid user => simp only [step, cmStep, add, users_aput, h]
+  | logout rid =>
+    simp only [step, cmStep, h]
+    cases hg : aget t rid with
+    | none =>
+      simp only
+      exact adel_absent _ _ (by rw [aget_users, hg]; rfl)
+    | some c => simp only [del, hg, if_true, users_adel]
+  | listen name sk allow => simp only [step, doListen, cmStep]; split <;> exact h
+  | natListen name sk allow => simp only [step, doNatListen, cmStep]; split <;> exact h
+  | register rid kind name sk cfgAllow =>
+    simp only [step, cmStep]
+    split
+    · exact h
+    · split
+      · exact h
+      · cases kind <;> simp only [doListen, doNatListen] <;> split <;> exact h
+  | closeListener name => exact h
+  | natClose name => exact h
+  | closeProxy rid name => exact h
+  | lclose name => simp only [step, cmStep]; split <;> exact h
+  | accept name => simp only [step, cmStep]; repeat' split
+                   all_goals exact h
+  | newConn name ts sign user conn => exact h
+  | visitorConn name ts sign rid conn => simp only [step, cmStep]; split <;> exact h
+  | natVisit sid name ts sign user pre => exact h
+  | natVisitBy sid name ts sign rid pre => simp only [step, cmStep]; split <;> exact h
+  | natDone sid => exact h
+
+/-- every history of service-level ops (logins with fresh or live run ids, logouts, registrations, visits, …) -/
+theorem ctls_track_manager (fixed : Bool) (H : Str → Str) (ops : List Op) :
+    ∀ (s : State) (t : Tbl) (n : Nat), s.ctls = users t → (runS fixed H s ops).ctls = users (cmRun t n ops) := by
+  induction ops with
+  | nil => intro s t n h; exact h
+  | cons op ops ih => intro s t n h; exact ih _ _ (n + 1) (ctls_track_step fixed H s t n op h)
+
+/-- C08's user clause over every history: after ANY history of ops from the empty server, a RegisterVisitorConn is
+    admitted only if the request is admissible (key + allow list of the registered listener) for the user of the control
+    that the ControlManager designates for the run id AT THAT MOMENT ("" for the empty run id) -/
+theorem visitorConn_user_is_designated (fixed : Bool) (H : Str → Str) (ops : List Op)
+    (name : Str) (ts : Int) (sign rid : Str) (conn lid : Nat)
+    (hadm : (step fixed H (runS fixed H {} ops) (.visitorConn name ts sign rid conn)).2 = .conn (.queued lid) ∨
+            (step fixed H (runS fixed H {} ops) (.visitorConn name ts sign rid conn)).2 = .conn (.dropped lid)) :
+    ∃ user, ((rid = [] ∧ user = []) ∨
+             (rid ≠ [] ∧ ∃ c, getByID (cmRun [] 0 ops) rid = some c ∧ c.user = user)) ∧
+            Admissible H (runS fixed H {} ops).listeners name ts sign user lid := by
+  obtain ⟨user, hru, hadm'⟩ := (visitorConn_sound fixed H (runS fixed H {} ops) name ts sign rid conn).1 lid hadm
+  refine ⟨user, ?_, hadm'⟩
+  have htr := ctls_track_manager fixed H ops {} [] 0 rfl
+  rcases hru with hru | ⟨hne, hg⟩
+  · exact .inl hru
+  · rw [htr, aget_users] at hg
+    cases hc : aget (cmRun [] 0 ops) rid with
+    | none => rw [hc] at hg; cases hg
+    | some c =>
+      rw [hc] at hg
+      exact .inr ⟨hne, c, hc, by simpa using hg⟩
+
+/-- a re-login closes what the replaced control had registered: none of its proxies outlives it (RegisterControl waits
+    for `oldCtl.WaitClosed()` before the new control starts) -/
+theorem relogin_closes_replaced (fixed : Bool) (H : Str → Str) (s : State) (rid user : Str) :
+    (∀ p ∈ (step fixed H s (.login rid user)).1.listeners, p.2.owner ≠ rid) ∧
+    (∀ p ∈ (step fixed H s (.login rid user)).1.natCfgs, p.2.owner ≠ rid) := by
+  simp only [step]
+  exact ⟨fun p hp => by simpa using (List.mem_filter.mp hp).2, fun p hp => by simpa using (List.mem_filter.mp hp).2⟩
+
+/-! ### non-vacuity: alice logs in with run id r, mallory logs in with the same run id while alice is registered -/
+
+def exA : Ctl := { id := 1, user := [97] }
+def exM : Ctl := { id := 2, user := [109] }
+
+example : visitorUser (after [Call.add [114] exA]) [114] = .ok [97] := by rfl
+example : visitorUser (after [Call.add [114] exM, Call.add [114] exA]) [114] = .ok [109] := by rfl
+-- the replaced control's Del comes late: mallory's control stays
+example : visitorUser (after [Call.del [114] 1, Call.add [114] exM, Call.add [114] exA]) [114] = .ok [109] := by rfl
+example : visitorUser (after [Call.del [114] 2, Call.del [114] 1, Call.add [114] exM, Call.add [114] exA]) [114] = .error .noRun := by
+  rfl
+-- proxy p of owner o allows [a]; run id r: alice admitted, after mallory's re-login under r refused
+def exOps2 : List Op := [.login [111] [111], .register [111] .stcp [112] [115] [[97]], .login [114] [97]]
+example : (step false exH (runS false exH {} exOps2) (.visitorConn [112] 7 (authKey exH [115] 7) [114] 1)).2
+    = .conn (.queued 0) := by decide
+example : (step false exH (runS false exH {} (exOps2 ++ [.login [114] [109]]))
+    (.visitorConn [112] 7 (authKey exH [115] 7) [114] 1)).2 = .conn (.err .notAllowed) := by decide
+example : (step false exH (runS false exH {} (exOps2 ++ [.logout [114]]))
+    (.visitorConn [112] 7 (authKey exH [115] 7) [114] 1)).2 = .conn (.err .noRun) := by decide
+
+/-! ## §11 "leaves no session state behind": the sessions map after refused NAT-hole requests, one or many -/
+
+/-- one NatHoleVisitor request as HandleVisitor sees it (`sid` = what GenSid would hand out) -/
+structure NatReq where
+  sid : Str
+  name : Str
+  ts : Int
+  sign : Str
+  user : Str
+  pre : Bool
+  deriving Repr
+
+def NatReq.run (fixed : Bool) (H : Str → Str) (cfgs : List (Str × NatCfg)) (sess : List (Str × NatSess)) (r : NatReq) :
+    List (Str × NatSess) × NatOut :=
+  natVisit fixed H cfgs sess r.sid r.name r.ts r.sign r.user r.pre
+
+/-- whether a request is granted depends on the client table and the request only, not on what is stored -/
+theorem natVisit_out_indep (fixed : Bool) (H : Str → Str) (cfgs : List (Str × NatCfg)) (sess sess' : List (Str × NatSess))
+    (r : NatReq) : (r.run fixed H cfgs sess).2 = (r.run fixed H cfgs sess').2 := by
+  unfold NatReq.run natVisit
+  cases r.pre
+  · simp only [Bool.false_eq_true, if_false]
+    split
+    · rfl
+    · split
+      · rfl
+      · split <;> rfl
+  · simp only [if_true]
+    split
+    · rfl
+    · split <;> rfl
+
+/-- a refused request (error or pre-check answer) leaves the sessions map as it was: in particular its size -/
+theorem nat_refused_leaves_nothing (fixed : Bool) (H : Str → Str) (cfgs : List (Str × NatCfg)) (sess : List (Str × NatSess))
+    (r : NatReq) (h : ∀ ch, (r.run fixed H cfgs sess).2 ≠ .granted ch) :
+    (r.run fixed H cfgs sess).1 = sess ∧ (r.run fixed H cfgs sess).1.length = sess.length := by
+  have := (natVisit_state fixed H cfgs sess r.sid r.name r.ts r.sign r.user r.pre).1 h
+  exact ⟨this, congrArg List.length this⟩
+
+/-- a flood: any number of requests handled one after the other against the same client table -/
+def natFlood (fixed : Bool) (H : Str → Str) (cfgs : List (Str × NatCfg)) : List (Str × NatSess) → List NatReq → List (Str × NatSess)
+  | sess, [] => sess
+  | sess, r :: rs => natFlood fixed H cfgs (r.run fixed H cfgs sess).1 rs
+
+/-- however many refused requests arrive — unknown proxy, wrong key, user not allowed, pre-checks of any kind, in any
+    mixture —, the sessions map is exactly what it was before the first one -/
+theorem flood_refused_leaves_nothing (fixed : Bool) (H : Str → Str) (cfgs : List (Str × NatCfg)) (rs : List NatReq) :
+    ∀ (sess : List (Str × NatSess)), (∀ r ∈ rs, ∀ ch, (r.run fixed H cfgs []).2 ≠ .granted ch) →
+      natFlood fixed H cfgs sess rs = sess := by
+  induction rs with
+  | nil => intro sess _; rfl
+  | cons r rs ih =>
+    intro sess h
+    have hr : ∀ ch, (r.run fixed H cfgs sess).2 ≠ .granted ch := by
+      intro ch; rw [natVisit_out_indep fixed H cfgs sess [] r]; exact h r List.mem_cons_self ch
+    simp only [natFlood, (nat_refused_leaves_nothing fixed H cfgs sess r hr).1]
+    exact ih sess (fun r' hr' => h r' (List.mem_cons_of_mem _ hr'))
+
+/-- the predicate the driver evaluates on the implementation's own session table: a request that the implementation
+    did not grant must not have made the table bigger (`before`, `after` = number of stored sessions that do not belong
+    to a granted visit whose handler is still running) -/
+def leavesNothingB (implGranted : Bool) (before after : Nat) : Bool := implGranted || decide (after ≤ before)
+
+theorem leavesNothingB_sound (implGranted : Bool) (before after : Nat) :
+    leavesNothingB implGranted before after = true ↔ (implGranted = false → after ≤ before) := by
+  cases implGranted <;> simp [leavesNothingB]
+
+/-- the model's own behaviour satisfies the predicate for every request, state and key derivation -/
+theorem model_leavesNothing (fixed : Bool) (H : Str → Str) (cfgs : List (Str × NatCfg)) (sess : List (Str × NatSess))
+    (r : NatReq) :
+    leavesNothingB (match (r.run fixed H cfgs sess).2 with | .granted _ => true | _ => false)
+      sess.length (r.run fixed H cfgs sess).1.length = true := by
+  rw [leavesNothingB_sound]
+  intro h
+  have hr : ∀ ch, (r.run fixed H cfgs sess).2 ≠ .granted ch := by
+    intro ch hc; rw [hc] at h; cases h
+  exact Nat.le_of_eq (nat_refused_leaves_nothing fixed H cfgs sess r hr).2
+
+-- right key, user outside the list, PreCheck off (what frpc never sends): refused, nothing stored — also 50 times
+example : (NatReq.run true (fun x => x) witnessCfgs [] ⟨[49], [112], 7, authInput [115] 7, [109], false⟩) = ([], .err .notAllowed) := by
+  decide
+example : natFlood true (fun x => x) witnessCfgs [] (List.replicate 50 ⟨[49], [112], 7, authInput [115] 7, [109], false⟩) = [] := by
+  decide
 
 end C08
 end Frp
